@@ -2,6 +2,6 @@ SPECIFICATION Spec
 CONSTANTS MaxWrite = 9
           MaxLen = 20
           MaxOps = 6
-INVARIANTS FillLevel LenIsCount BufIsTail SumIsDef PadShape
+INVARIANTS LenAbstraction FillLevel LenIsCount BufIsTail SumIsDef PadShape
 VIEW View
 CHECK_DEADLOCK FALSE
